@@ -30,6 +30,7 @@ CHECKS = {
         cat="exploration", ref="DESIGN.md section 4 C03",
         text="Same simulated histories; per open position the P&L identities are evaluated in exact arithmetic on the "
              "fills since the position was opened, and re-marking must leave realised P&L and quantity bit-identical. "
+             "A free-standing Position is also driven through exactly-flat, flipped and re-opened states directly. "
              "Reach over sign-pattern paths (<=4 fills) is measured in the evidence. The 'all reals' half of the "
              "quantifier is a proof obligation that simulation only samples.",
         note="Trusted: ledger model, tolerance 1e-9 x gross consideration. Sampling only.",
@@ -38,7 +39,8 @@ CHECKS = {
         cat="exploration", ref="DESIGN.md section 4 C04",
         text="Bursts of submissions interleaved with clock ticks at adversarial instants (14:30:00, 20:59:59, 21:00:00, "
              "weekends, duplicates); the fills captured in each update are compared with the documented rule "
-             "(all pending, in full, once, sells first, submission order; nothing outside exchange hours), including "
+             "(all pending, in full, once, sells first - per portfolio and across portfolios - submission order; nothing "
+             "outside exchange hours), including "
              "bounded liveness: every pending order fills at the first in-hours update.",
         note="Trusted: reference exchange hours (pure integer calendar), pending-queue model. Domain kept: every asset "
              "always has a quote.",
